@@ -217,7 +217,11 @@ func (u uField) coq() string {
 			keyfmt = map[string]int{"key": 0, "key:id62": 1, "key:uuid": 2}[u.J5Type]
 		}
 	}
-	return fmt.Sprintf("(mkU6 %s %s %s %s %s %d)", bt(u.Name), kind, vh.BoolTerm(u.Required), vh.BoolTerm(u.Optional), bt(u.Desc), keyfmt)
+	container := 0
+	if u.Inline != "" {
+		container = map[string]int{"": 0, "array": 1, "map": 2}[u.Container]
+	}
+	return fmt.Sprintf("(mkU7 %s %s %s %s %s %d %d)", bt(u.Name), kind, vh.BoolTerm(u.Required), vh.BoolTerm(u.Optional), bt(u.Desc), keyfmt, container)
 }
 
 func coqList[T any](xs []T, f func(T) string) string {
@@ -286,6 +290,9 @@ var verbNames = map[int]string{1: "GET", 2: "POST", 3: "PUT", 4: "DELETE", 5: "P
 
 func (u uField) j5sType() string {
 	if u.Inline != "" {
+		if u.Container != "" {
+			return u.Container + ":" + u.Inline
+		}
 		return u.Inline
 	}
 	if u.Container != "" {
